@@ -7,7 +7,7 @@ TEXT = ("must_getter_table, getter_error_iff, no_getter_no_methods, method_set, 
         "container's reflected method set + the embedded field, regenerated) are Lean theorems for every (getter, must_getter, default_must_getter, meta) combination. "
         "The full truth table getter x type form x must_getter x default_must_getter x meta names is generated, built, compiled and inspected by reflection in the probe "
         "(exact method set and signatures), every getter and must-getter is called (panics recovered) and compared with Get(name); collisions (equal getters, getters "
-        "equal to any method/field of the embedded container, Must-prefix, InContext-suffix) must be rejected naming the service.")
+        "equal to any method/field of the embedded container, Must-prefix, InContext-suffix) must be rejected naming the service. methods_never_collide: for every accepted input the names G, GInContext, MustG, MustGInContext of all live getters (forms regenerated from the getter template) are pairwise distinct and disjoint from the runtime container's method table — a statement about all getter strings. Getter calls run over the runtime model too (op call): per-context identity of InContext getters, conversion to a declared type that is convertible but not assignable.")
 TECHNIQUE = "Lean 4 theorems (case analysis over the getter options, decide over regenerated API tables) + exhaustive truth-table build, reflection of the method set and calls in the probe"
 LEAN_PROPS = ["C13"]
 TRUSTED = ["copier.Copy conversion to the declared type is the runtime's; observed per call"]
@@ -81,6 +81,26 @@ def run(ctx):
             want_must = bool(getter) and (mg if mg is not None else bool(dmg))
             if s_out["mustGetter"] != want_must or s_out["getter"] != (getter or ""):
                 violations.append({"sig": "must-getter-table", "what": "getter=%r must_getter=%r default_must_getter=%r compiles to getter=%r mustGetter=%r, documented: mustGetter=%r" % (getter, mg, dmg, s_out["getter"], s_out["mustGetter"], want_must), "files": [gen.yaml_doc(cfg)]})
+    # every subset of the three configurable names: each one is the configured name or ITS documented default, independently
+    for sub in itertools.product([False, True], repeat=3):
+        mt = {"imports": {"fx": gen.FX}}
+        if sub[0]:
+            mt["pkg"] = "mypkg"
+        if sub[1]:
+            mt["container_type"] = "Registry"
+        if sub[2]:
+            mt["container_constructor"] = "Build"
+        cfg = {"meta": mt, "services": {"s": {"constructor": "fx.NewA"}}}
+        a, b, d = corr.compile_pair(ctx, [gen.yaml_doc(cfg)])
+        dist["compiled_cells"] += 1
+        for x in d[:1]:
+            if len(corr_fail) < 10:
+                corr_fail.append({"op": "compile:" + x[0], "files": [gen.yaml_doc(cfg)], "impl": x[1], "model": x[2]})
+        om = (a.get("output") or {}).get("meta") or {}
+        want = {"pkg": "mypkg" if sub[0] else "main", "containerType": "Registry" if sub[1] else "Gontainer", "containerConstructor": "Build" if sub[2] else "NewGontainer"}
+        got = {k: om.get(k) for k in want}
+        if got != want:
+            violations.append({"sig": "meta-names", "what": "meta names %r compile to %r; configured names or the documented defaults main / Gontainer / NewGontainer would be %r" % ({k: v for k, v in mt.items() if k != "imports"}, got, want), "files": [gen.yaml_doc(cfg)]})
     # ... and a third of it (per seed) built, compiled and inspected in the probe
     if ctx.quick:
         tab = [t for i, t in enumerate(tab) if i % 3 == ctx.seed % 3]
